@@ -29,6 +29,9 @@ EXPLANATION += ' RV-FP-HSEM.'
 
 EXPLANATION += ' A64-CFR-BITS, RV-CFR-BITS.'
 
+EXPLANATION += ' PORT-ENDIAN-PAIR.'
+CLAIM += (' On a big-endian target a member that is read through a little-endian helper (the E-register masks) is written through the matching store helper (PORT-ENDIAN-PAIR).')
+
 
 def run(ctx, R):
     F = astq.Facts(ctx, 'K0')
